@@ -257,6 +257,8 @@ type Reply struct {
 	FlushAfterHeader bool
 	// PrefixTrailersEarly sets the http.TrailerPrefix keys before WriteHeader instead of after the body.
 	PrefixTrailersEarly bool
+	// Informational != 0: the handler first calls WriteHeader with this 1xx status.
+	Informational int
 }
 
 // Backend is a scripted http.Handler that records what it saw.
@@ -308,6 +310,15 @@ func WriteReply(w http.ResponseWriter, rep *Reply, errs *[]string) {
 	}
 	out := rep.Out
 	h := w.Header()
+	if rep.Informational != 0 {
+		// an informational response first (103 Early Hints; what httputil.ReverseProxy does
+		// with a remote backend's 1xx): not the response
+		if rep.Informational == 103 {
+			h.Set("Link", "</style.css>; rel=preload; as=style")
+		}
+		w.WriteHeader(rep.Informational)
+		h.Del("Link")
+	}
 	for k, v := range out.Header {
 		h[k] = append([]string(nil), v...)
 	}
